@@ -80,7 +80,7 @@ def exhaustive_nfas(n, Sigma, eps='_'):
             yield {'Q': Q, 'Sigma': list(Sigma), 'delta': delta, 'q0': Q[0], 'F': F, 'eps': eps, 'dd': True}
 
 
-def random_nfa(rng, nmax=6, Sigma=None, eps=None, names=None, prefix=None):
+def random_nfa(rng, nmax=6, Sigma=None, eps=None, names=None, prefix=None, live=False):
     n = rng.randint(1, nmax)
     scheme = names or rng.choice(NAME_SCHEMES)
     Q = [scheme(i) for i in range(n)]
@@ -116,6 +116,16 @@ def random_nfa(rng, nmax=6, Sigma=None, eps=None, names=None, prefix=None):
     r = rng.random()
     F = [] if r < 0.1 else list(Q) if r < 0.2 else [q for q in Q if rng.random() < 0.4]
     q0 = Q[0] if rng.random() < 0.7 else rng.choice(Q)
+    if live and Sigma:       # make sure some non-empty word is accepted
+        f = rng.choice(Q)
+        a = rng.choice(list(Sigma))
+        if f not in F:
+            F = F + [f]
+        hit = [e for e in delta if e[0] == q0 and e[1] == a]
+        if hit:
+            hit[0][2] = sorted(set(hit[0][2]) | {f})
+        else:
+            delta.append([q0, a, [f]])
     rng.shuffle(delta)
     return {'Q': Q, 'Sigma': list(Sigma), 'delta': delta, 'q0': q0, 'F': F, 'eps': eps,
             'dd': rng.random() < 0.6}
@@ -262,6 +272,15 @@ def random_pda(rng, nmax=3, tmax=6, markers=False):
     eps = rng.choice(['_', '_', 'ε', ''])
     delta = {}
     style = rng.random()
+    if style > 0.85 and len(Gamma) >= 2 and n >= 2:      # two replace moves popping the same symbol into the same state, pushing different symbols
+        p, q = rng.choice(Q), rng.choice(Q)
+        u = Gamma[0]
+        delta[(Q[0], Sigma[0], eps)] = {(p, u)}
+        delta[(p, Sigma[0], u)] = {(q, Gamma[0])}
+        delta[(p, Sigma[-1], u)] = {(q, Gamma[1])}
+        r = rng.choice(Q)
+        delta.setdefault((q, Sigma[0], Gamma[0]), set()).add((r, eps))
+        delta.setdefault((q, Sigma[-1], Gamma[1]), set()).add((Q[-1], eps))
     for _ in range(rng.randint(1, tmax)):
         p, q = rng.choice(Q), rng.choice(Q)
         a = rng.choice(Sigma + [eps]) if rng.random() < 0.75 else eps
@@ -276,6 +295,10 @@ def random_pda(rng, nmax=3, tmax=6, markers=False):
         delta.setdefault((p, a, u), set()).add((q, v))
     r = rng.random()
     F = [] if r < 0.08 else list(Q) if r < 0.2 else [q for q in Q if rng.random() < 0.5]
+    if rng.random() < 0.5:   # a guaranteed accepting computation on a non-empty word that leaves a symbol on the stack
+        delta.setdefault((Q[0], Sigma[0], eps), set()).add((Q[-1], Gamma[0]))
+        if Q[-1] not in F:
+            F = F + [Q[-1]]
     d = [[p, a, u, sorted([list(t) for t in T])] for (p, a, u), T in delta.items()]
     return {'Q': Q, 'Sigma': Sigma, 'Gamma': Gamma, 'delta': d, 'q0': Q[0], 'F': F, 'eps': eps, 'dd': True}
 
@@ -298,3 +321,21 @@ def ambiguous_cfg(rng):
             R.append([n, aid, [['t', rng.choice(Sigma)]]])
             aid += 1
     return {'V': ['S'] + names, 'Sigma': Sigma, 'R': R, 'S': 'S'}
+
+
+def ambiguous_cfg2(rng):
+    """CNF grammar S -> X1 Y1 where X2, Y2 with X1+Y1 == X2+Y2 are also variables (with their own terminals): a table keyed on
+    concatenated names confuses the two"""
+    base = rng.choice(['ABC', 'ABCD', 'AAB', 'AAA', 'XYZ'])
+    c1, c2 = rng.sample(range(1, len(base)), 2)
+    names = []
+    for n in (base[:c1], base[c1:], base[:c2], base[c2:]):
+        if n not in names:
+            names.append(n)
+    Sigma = ['a', 'b', 'c', 'd']
+    R = [['S', 0, [['v', base[:c1]], ['v', base[c1:]]]]]
+    for i, n in enumerate(names):
+        R.append([n, i + 1, [['t', Sigma[i % 4]]]])
+    if rng.random() < 0.5:
+        R.append([names[0], len(R), [['v', names[-1]], ['v', names[0]]]])
+    return {'V': ['S'] + names, 'Sigma': Sigma[:len(names)], 'R': R, 'S': 'S'}
